@@ -732,13 +732,16 @@ impl GraphDatabaseService {
     ///
     pub async fn filter_existing_node(
         &self,
+        room_id: Uid,
         mut node_ids: HashSet<NodeIdentifier>,
     ) -> Result<Vec<NodeToInsert>> {
         let (reply, receive) = oneshot::channel::<Result<Vec<NodeToInsert>>>();
         self.db
             .reader
             .send_async(Box::new(move |conn| {
-                match Node::filter_existing(&mut node_ids, conn).map_err(Error::from) {
+                match Node::filter_existing_in_room(&mut node_ids, &room_id, conn)
+                    .map_err(Error::from)
+                {
                     Ok(v) => {
                         let _ = reply.send(Ok(v));
                     }
